@@ -316,8 +316,25 @@ Print Assumptions prefix_get_source_eq_model.
 '''
 
 
+def check_leaf_loaders(tree):
+    """FunctionLoader.get_source and DictLoader.get_source: small and pure — pinned statement by statement (fail-closed).
+    "not found" is `is None` / `not in the mapping`, never a truth test: an empty template is a template."""
+    want = {
+        ("FunctionLoader", "get_source"): ["rv = self.load_func(template)", "if rv is None:\n    raise TemplateNotFound(template)",
+                                           "if isinstance(rv, str):\n    return (rv, None, None)", "return rv"],
+        ("DictLoader", "get_source"): ["if template in self.mapping:\n    source = self.mapping[template]\n"
+                                       "    return (source, None, lambda: source == self.mapping.get(template))",
+                                       "raise TemplateNotFound(template)"],
+    }
+    for (cls, meth), stmts in want.items():
+        got = [u(x) for x in strip_doc(method(tree, cls, meth).body)]
+        if got != stmts:
+            raise Untranslatable(f"{cls}.{meth} changed: " + " / ".join(got)[:200])
+
+
 def emit(src_root):
     tree = ast.parse(open(os.path.join(src_root, "jinja2", "loaders.py")).read())
+    check_leaf_loaders(tree)
     d = {"root": src_root}
     d["fs"] = fs_term(method(tree, "FileSystemLoader", "get_source"))
     d["cgs"] = choice_term(method(tree, "ChoiceLoader", "get_source"), "get_source")
